@@ -9,8 +9,8 @@ mkdir -p $DEST
 cp $OUT/patch.diff $DEST/patch.diff
 cp $OUT/demo.py $DEST/demo.py
 [ -f $OUT/notes.md ] && cp $OUT/notes.md $DEST/notes.md
-(cd /repo && JAX_PLATFORMS=cpu PYTHONPATH=/repo timeout 600 /venv/bin/python $DEST/demo.py >$DEST/demo_unchanged.log 2>&1); A=$?
-(cd $WT && JAX_PLATFORMS=cpu PYTHONPATH=$WT timeout 600 /venv/bin/python $DEST/demo.py >$DEST/demo_changed.log 2>&1); B=$?
+(cd /repo && JAX_PLATFORMS=cpu PYTHONPATH=/tmp/nompi_stub:/repo timeout 600 /venv/bin/python $DEST/demo.py >$DEST/demo_unchanged.log 2>&1); A=$?
+(cd $WT && JAX_PLATFORMS=cpu PYTHONPATH=/tmp/nompi_stub:$WT timeout 600 /venv/bin/python $DEST/demo.py >$DEST/demo_changed.log 2>&1); B=$?
 echo "demo on unchanged tree: exit $A ; with the change: exit $B"
 if [ -n "$TESTS" ]; then
   (cd /repo && JAX_PLATFORMS=cpu PYTHONPATH=/tmp/nompi_stub:/repo timeout 3000 /venv/bin/python -m pytest -q -p no:cacheprovider -n 8 $TESTS 2>&1 | tail -1 > $DEST/tests_unchanged.log)
